@@ -1135,6 +1135,23 @@ func (fr *frame) loopTrans(li *loopInfo, st *state, phiVals map[*ssa.Phi]string)
 			tr.vars[name] = tvar{v, vtype{c.sortOf(phi.Type()), phi.Type()}}
 		}
 	}
+	// the hidden index of an enclosing `for ... range` loop: idx<ordinal of that loop>
+	for h, lo := range fr.loops {
+		if lo == nil || lo == li || !lo.body[li.header] {
+			continue
+		}
+		for _, ins := range h.Instrs {
+			phi, ok := ins.(*ssa.Phi)
+			if !ok {
+				break
+			}
+			if phi.Comment == "rangeindex" {
+				if v, ok := fr.vals[phi]; ok {
+					tr.vars[fmt.Sprintf("idx%d", lo.ordinal)] = tvar{v, vtype{c.sortOf(phi.Type()), phi.Type()}}
+				}
+			}
+		}
+	}
 	// range iterator ghost
 	for _, ins := range li.header.Instrs {
 		if nx, ok := ins.(*ssa.Next); ok {
@@ -1288,6 +1305,7 @@ func (vc *funcVC) havoc(st, pre *state, ms *modset, why string, rootTerm func(ss
 		if !sh.nonCell && len(sh.cellObjs) > 0 && objTerm != nil {
 			// every write is a direct store into one of these local objects: all other cells are unchanged
 			var g []string
+			var objs []baseObj
 			ok := true
 			for o := range sh.cellObjs {
 				t, found := objTerm[o]
@@ -1296,10 +1314,20 @@ func (vc *funcVC) havoc(st, pre *state, ms *modset, why string, rootTerm func(ss
 					break
 				}
 				g = append(g, fmt.Sprintf("(distinct (oid fa!x) %s)", t.term))
+				t.escaped = true // not known to be unescaped here: the lineage lemma is used only under type unreachability
+				objs = append(objs, t)
 			}
 			if ok {
 				sort.Strings(g)
 				c.assume(fmt.Sprintf("(forall ((fa!x Ref)) (! (=> %s (= (select %s fa!x) (select %s fa!x))) :pattern ((select %s fa!x))))", and(g...), n, old, n))
+				if _, has := st.base[k]; !has {
+					sort.Slice(objs, func(i, j int) bool { return objs[i].term < objs[j].term })
+					if pb, had := pre.base[k]; had {
+						st.base[k] = heapBase{pb.term, append(append([]baseObj{}, pb.objs...), objs...)}
+					} else {
+						st.base[k] = heapBase{old, objs}
+					}
+				}
 			}
 		}
 		if sh.any {
